@@ -8,6 +8,9 @@ import PpciVerif.Model.TasksLegacy
              in the order the code iterates them (sorted)
   run <graph> <req-list>            Model.Tasks.run            → ok [order] | err TaskError:loop | err TaskError:notfound
   check <graph> <t>                 Model.Tasks.checkTarget    → ok | err …
+  all <graph> <n>   (n ≤ 9)         `run` for every non-empty request subset of 0..n-1 (ascending list; subsets in
+                                    order of their bit mask 1..2^n-1) and `check` for every t < n, in one reply:
+                                    ok r1;r2;…|c0;c1;…   r = executed ranks as digits | L (loop) | N (not found), c = o | L | N
   legacy-check <graph> <t>          Model.TasksLegacy.checkTarget (code before the fix; fuel 200)
   legacy-order <graph> <req> <iter> Model.TasksLegacy.order    (iter = set iteration order)
 -/
@@ -34,6 +37,23 @@ def showLegacy {α} (f : α → String) (r : Except Model.TasksLegacy.Err' α) :
   | .ok a => "ok" ++ f a
   | .error e => "err " ++ e.name
 
+def tok (r : Except Model.Tasks.Err (List Nat)) : String :=
+  match r with
+  | .ok l => String.join (l.map toString)
+  | .error .loop => "L"
+  | .error .notFound => "N"
+
+def subsetOf (n m : Nat) : List Nat := (List.range n).filter (fun i => m.testBit i)
+
+def allOf (g : Model.Tasks.Graph) (n : Nat) : String :=
+  let runs := (List.range (2 ^ n - 1)).map (fun i => tok (Model.Tasks.run g (subsetOf n (i + 1))))
+  let checks := (List.range n).map (fun t =>
+    match Model.Tasks.checkTarget g t with
+    | .ok _ => "o"
+    | .error .loop => "L"
+    | .error .notFound => "N")
+  "ok " ++ ";".intercalate runs ++ "|" ++ ";".intercalate checks
+
 def step (line : String) : String :=
   match words line with
   | ["run", g, req] =>
@@ -46,6 +66,10 @@ def step (line : String) : String :=
       match Model.Tasks.checkTarget g t with
       | .ok _ => "ok"
       | .error e => "err " ++ e.name
+    | _, _ => "bad-op"
+  | ["all", g, n] =>
+    match parseGraph g, nat? n with
+    | some g, some n => if n > 9 then "bad-op" else allOf g n
     | _, _ => "bad-op"
   | ["legacy-check", g, t] =>
     match parseGraph g, nat? t with
